@@ -19,7 +19,7 @@ N_reasons == "7072696e7465722d73746174652d726561736f6e73"   \* printer-state-rea
 Blocking == {"6d656469612d6a616d", "746f6e65722d656d707479", "73706f6f6c2d617265612d66756c6c", "636f7665722d6f70656e", "646f6f722d6f70656e", "696e7075742d747261792d6d697373696e67", "6f75747075742d747261792d6d697373696e67", "6d61726b65722d737570706c792d656d707479", "706175736564", "73687574646f776e"}
   \* media-jam, toner-empty, spool-area-full, cover-open, door-open, input-tray-missing, output-tray-missing, marker-supply-empty, paused, shutdown
 KwNone == "6e6f6e65"
-Harmless == {KwNone, "6d656469612d6c6f77", "746f6e65722d6c6f77", "6d61726b65722d737570706c792d6c6f77", "6d6f76696e672d746f2d706175736564", "636f6e6e656374696e672d746f2d646576696365"}
+Harmless == {KwNone, "6d656469612d6c6f77", "746f6e65722d6c6f77", "6d61726b65722d737570706c792d6c6f77"}   \* none, media-low, toner-low, marker-supply-low: informational beyond doubt
 
 MustSucceed(code) == code \in {0, 1, 2}
 MayFail(code)     == code > 2                \* 0x0003-0x00ff: either, as long as it agrees with is_success
@@ -40,7 +40,15 @@ ReadyOp(resp, success) ==
            blocked == N_reasons \in DOMAIN pa /\ Keywords(pa[N_reasons]) \cap Blocking # {}
        IN IF stopped \/ blocked THEN "notready" ELSE "ready"
 
-(* declarative: results the property allows *)
+(* declarative: results the property allows.  The property speaks of THE printer-state and THE reasons of a    *)
+(* response; where a response carries several printer-attributes groups (outside "unrelated attributes and     *)
+(* groups") a helper that reads the first group and one that answers not-ready when ANY printer group is       *)
+(* stopped or blocked are both faithful: with the first group ready and a later one stopped / blocked either   *)
+(* answer is allowed.  A first group that is stopped / blocked is not-ready under both readings.               *)
+MustNotOf(pa) == \/ (N_pstate \in DOMAIN pa /\ pa[N_pstate].k = "Enum" /\ pa[N_pstate].i = 5)
+                 \/ (N_reasons \in DOMAIN pa /\ Keywords(pa[N_reasons]) \cap Blocking # {})
+LaterPrinterNot(gs) ==
+  \E i \in 1..Len(gs) : /\ gs[i].tag = 4 /\ (\E j \in 1..(i-1) : gs[j].tag = 4) /\ MustNotOf(gs[i].attrs)
 Allowed(resp) ==
   LET pa == FirstPrinter(resp.groups)
       hasState == N_pstate \in DOMAIN pa
@@ -50,7 +58,9 @@ Allowed(resp) ==
       mustNot == (st.k = "Enum" /\ st.i = 5) \/ (kws \cap Blocking # {})
       mustBe  == /\ st.k = "Enum" /\ st.i \in {3, 4}
                  /\ (~hasR \/ (AllKeywords(pa[N_reasons]) /\ kws \subseteq Harmless))
-      onSuccess == IF mustNot THEN {"notready"} ELSE IF mustBe THEN {"ready"} ELSE {"ready", "notready"}
+      onSuccess == IF mustNot THEN {"notready"}
+                   ELSE IF mustBe /\ ~LaterPrinterNot(resp.groups) THEN {"ready"}
+                   ELSE {"ready", "notready"}
   IN IF MustSucceed(resp.code) THEN onSuccess
      ELSE IF MustFail(resp.code) THEN {"err"}
      ELSE onSuccess \cup {"err"}
